@@ -93,7 +93,7 @@ FORMAT = {SC: lambda x: '; '.join(x), NAIVE: lambda x: x}
 INVERSE = {SC: lambda s: [e.strip() for e in s.split(';')], NAIVE: lambda s: s}
 CLI_FMT = {SC: 'sc_separated', NAIVE: 'naive'}
 CLI_PROC = {SC: 'taxonomy', NAIVE: 'naive'}
-EXPORT_OF = {'taxonomy': ('taxonomy', SC), 'taxonomy_ragged': ('taxonomy', SC),
+EXPORT_OF = {'taxonomy': ('taxonomy', SC), 'taxonomy_ragged': ('taxonomy', SC), 'taxonomy_gap': ('taxonomy', SC),
              'text': ('label', NAIVE), 'two': ('label', NAIVE)}
 
 
@@ -140,7 +140,7 @@ def cases(tier, seed):
                                 'writers': CHEAP_WRITERS, 'readers': CHEAP_READERS})
     for shape in shapes:
         for mask in D.masks(shape):
-            for md in ('none', 'taxonomy', 'taxonomy_ragged'):
+            for md in ('none', 'taxonomy', 'taxonomy_ragged', 'taxonomy_gap'):
                 out.append({'prod': 'CV', 'shape': list(shape), 'mask': mask,
                             'rot': (rot + 5) % len(D.HARD), 'pool': 'hard', 'layout': 'csr',
                             'obs_md': md, 'export': md != 'none',
@@ -154,7 +154,7 @@ def cases(tier, seed):
                             'layout': lays[len(out) % len(lays)],
                             'writers': WRITERS, 'readers': READERS})
     for shape, mask in fixed_masks(tier):
-        for md in ('taxonomy', 'taxonomy_ragged', 'text', 'two'):
+        for md in ('taxonomy', 'taxonomy_ragged', 'taxonomy_gap', 'text', 'two'):
             for export in (True, False):
                 for hv in ((None, 'Consensus Lineage') if export else (None,)):
                     for smd in ('none', 'text'):
